@@ -23,6 +23,10 @@ FOCUS = ['parallel_edges', 'fanin_two_vars_same_node', 'op_two_inputs_one_multi_
          'edge_same_name_src_tgt', 'name_like_edge_local', 'derived_label_name_with_multi_driven_input']
 
 
+ET_FOCUS = ['parallel_templated_edges']
+CONTAINING_POOL = ['r', 'rr', 'x', 'xx', 'k', 'kk', 'k1', 'k10', 'a', 'aa', 'ab', 'a_b', 'q', 'qq', 'u', 'uu', 'v', 'vv']
+
+
 def plan(tier, seed):
     rnd = random.Random(f'{PID}-{seed}')
     n = 260 if tier == 'quick' else 9000
@@ -31,6 +35,14 @@ def plan(tier, seed):
     k = 12 if tier == 'quick' else 150
     for feat in FOCUS:
         fam = 'probe:' + feat if feat in opened else 'main'
+        cases += [{'family': fam, 'cseed': rnd.randrange(1 << 30), 'want': feat} for _ in range(k)]
+    # identifiers that are heads/tails of one another (r/rr, x/xx, k1/k10) around multiply driven inputs, which PyRates
+    # rewrites textually (parser.replace)
+    cases += [{'family': 'containing_names', 'cseed': rnd.randrange(1 << 30)} for _ in range(40 if tier == 'quick' else 1200)]
+    # edges through EdgeTemplates (algebraic edge operators with per-edge constants)
+    cases += [{'family': 'edge_templates', 'cseed': rnd.randrange(1 << 30)} for _ in range(50 if tier == 'quick' else 1500)]
+    for feat in ET_FOCUS:
+        fam = 'probe:' + feat if feat in opened else 'edge_templates'
         cases += [{'family': fam, 'cseed': rnd.randrange(1 << 30), 'want': feat} for _ in range(k)]
     return cases
 
@@ -50,6 +62,26 @@ def make_spec(case, opened):
         return case['spec'], f, r
     rnd = random.Random(case['cseed'])
     want = case.get('want')
+    fam = case.get('family')
+    if fam == 'containing_names':
+        return gen.gen_net(rnd, pool=CONTAINING_POOL, forbid=opened, n_nodes=rnd.choice([1, 2, 3]),
+                           edge_density=rnd.choice([0.6, 1.0]),
+                           allow=lambda s, f, r: 'multi_driven_input' in f and 'names_contain_one_another' in f)
+    if fam == 'edge_templates' or want in ET_FOCUS:
+        others = set(opened) - {want}
+        for attempt in range(400):
+            spec, f, r = gen.gen_net(rnd, pool=gen.SAFE_POOL if rnd.random() < 0.5 else gen.MAIN_POOL, forbid=others,
+                                     edge_density=rnd.choice([0.3, 0.6, 1.0, 1.0]), n_nodes=rnd.choice([2, 3, 4, 5]),
+                                     allow=lambda s, f, r: 'edges' in f)
+            spec = gen.add_edge_templates(spec, rnd, frac=rnd.choice([0.3, 0.6, 1.0]), mixed_overrides=rnd.random() < 0.3,
+                                          names=rnd.choice(['plain', 'plain', 'shared']))
+            f, r = gen.features(spec)
+            # mixed overrides only matter for vectorized builds (finding recorded under C04)
+            r = [x for x in r if x != 'mixed_template_overrides']
+            if 'edge_template' not in f or (want and want not in r) or others & set(r):
+                continue
+            return spec, f, r
+        raise RuntimeError('generator could not satisfy the constraints')
     if want:
         pool = {'user_name_like_generated': gen.DERIVED_POOL, 'derived_label_name_with_multi_driven_input': gen.DERIVED_POOL,
                 'name_like_edge_local': gen.EDGE_LOCAL_POOL}.get(want, gen.SAFE_POOL)
